@@ -40,7 +40,7 @@ CLAIMED = {
     design="4.19"),
  "C07": dict(
     text="Provider.tla is the provider's decision table: outcome as a function of accessor (13 rate accessors), species kind, stored/missing data, wavelength "
-         "availability, the three flags, argument class (every grid point, inside, non-positive per axis, below/above per axis), the set of single-point axes of the stored table and tables with a sharp fall along one axis (cubic interpolants dip below zero there: rates stay non-negative), and two-species accessors asked with one element and one isotope; TLC enumerates all 12 424 rows, "
+         "availability, the three flags, argument class (every grid point, inside, non-positive per axis, below/above per axis), the set of single-point axes of the stored table and tables with a sharp fall along one axis (cubic interpolants dip below zero there: rates stay non-negative), and two-species accessors asked with one element and one isotope; tables whose first / last nodes are not powers of ten (lattice = physical: the table's own edge nodes are grid points like any other); TLC enumerates all 12 832 rows, "
          "checks totality and uniformity invariants, and every row is executed on a real OpenADAS object over a repository populated through the C06-checked API "
          "(exception classes exact, grid values = stored table x CODATA unit conversion to 1e-9, exact zeros, finite non-negative, null rates).",
     note="3-point axes (the 2-D cubic interpolators reject single-point axes; single-point only for beam classes); interpolation quality between nodes not specified beyond finite/non-negative; "
@@ -82,7 +82,7 @@ CLAIMED = {
     text="Caching.tla models the lazy per-cell cache protocol of Caching1D/2D/3D (sampled nodes, calculated cells, which stencil nodes an evaluation asks the wrapped function for and in which order) "
          "and, for 1-D, the exact cubic-Hermite interpolant over integers (x128) for an integer-coefficient polynomial family; TLC checks each node is requested at most once, the value is a function of the "
          "point only, node exactness, exact reproduction of linear functions and the h^2 error bound on cubics, over all evaluation orders to depth 2-3 (3-4 thorough). Every order is replayed on the real "
-         "classes with a recording polynomial in two configurations (no_boundary_error/function_boundaries): asked nodes and order, value vs exact interpolant, value vs a fresh instance, value vs the unbounded variant. Per-axis spacings (1, 0.5, 0.25) and lattices displaced from the origin / of 5 mm resolution (Origins): the protocol and history independence hold there; "
+         "classes with a recording polynomial in two configurations (no_boundary_error/function_boundaries): asked nodes and order, value vs exact interpolant, value vs a fresh instance, value vs the unbounded variant. LatticeCases: the number of cells for extent x requested resolution (never fewer than one) on every axis of every class. Per-axis spacings (1, 0.5, 0.25) and lattices displaced from the origin / of 5 mm resolution (Origins): the protocol and history independence hold there; "
          "The sampling nodes are asserted as sets (order and repeated requests are observations). Also uneven cell counts per axis (N, N+1, N+3) and function_boundaries that are wide / exceeded by the function / degenerate (min = max). Caching3D's loss of accuracy away from the origin is the recorded known finding (three listed signatures).",
     note="Areas [x0, x0 + N h]; agreement with the exact interpolant limited to 2e-5 by the code's 1e-7 node shift; the h^2 bound for arbitrary C2 functions is not decided (polynomial family only).",
     technique="TLA+ cache-protocol state machine + exact integer Hermite interpolant, TLC-explored evaluation orders replayed on the code",
@@ -117,7 +117,7 @@ CLAIMED = {
     text="IonBalance.tla gives, for an element of atomic number Z with integer ionisation / recombination / thermal-CX rate patterns, donor ratio n_D/n_e in {0, 1/2, 2} and donor charge state, "
          "the exact rational steady-state populations and checks unit-simplex, neighbour balance and mean-charge invariants (Z <= 8 exact; Z up to 18 rates only). Every instance is run on a mock "
          "AtomicData through fractional_abundance (scalar, ndarray, Function1D, Function2D + free variables), from_elementdensity, match_plasma_neutrality (charge closure, non-negativity) and the "
-         "1-D interpolator front-ends; results are compared with the exact fractions / balance equations (1e-7) and with each other. IonSession.tla generates sequences of entry-point calls "
+         "1-D interpolator front-ends; results are compared with the exact fractions / balance equations (1e-7) and with each other. Element densities of 1/40 and 40 times the electron density (the density is a scale only). IonSession.tla generates sequences of entry-point calls "
          "(entry x element x representation x donor, depth 2-3) that share one set of caller-owned profile arrays with T_e/n_e-dependent rates: after every call the arrays must be untouched and the result equal to the same call on fresh scalar inputs; providers whose served tables change between calls (Update; call - update - call). "
          "Power-of-ten rate patterns spanning 2, 6 and 20 orders of magnitude with exact populations 10^k: spans 2 and 6 agree to 1e-8, span 20 is the recorded known finding (lsq_linear breakdown / non-termination; six listed signatures).",
     note="Rates at physical magnitude (k x 1e-14 m^3/s, n_e = 3e19); the wide-span instances are the only ones that leave it. A balance evaluation that does not return within 20 s is reported as non-termination.",
@@ -148,7 +148,7 @@ CLAIMED = {
          "the beam-emission charged sum; TLC checks min q <= q <= max q and vanishing for zero beam density over all ion compositions; each configuration is executed through BeamCXLine / "
          "BeamEmissionLine.emission on a real Beam with a constant-density attenuator stub, totals compared (1e-9) and every coefficient's evaluation arguments (E_int, T, total ion density, Z_eff, |B|; "
          "sum Z^2 n / Z_i) compared with the spec's sums; flowing species (per-species bulk velocities, beam frame rotated against the plasma frame) give each coefficient its own exact interaction energy. "
-         "The same priors as C03 (incl. a model attached through beam.models, evaluated, the beam geometry changed, evaluated, the plasma replaced in place). Composition.tla models the plasma composition manager (set / add / clear, order, identity, notifications) with Z-effective and ion density after every step, replayed on a real Plasma.",
+         "Where the spec total is zero (zero beam density, receiver density or receiver temperature - also with no ion at all) a temperature-independent user line shape must be handed nothing. The same priors as C03 (incl. a model attached through beam.models, evaluated, the beam geometry changed, evaluated, the plasma replaced in place). Composition.tla models the plasma composition manager (set / add / clear, order, identity, notifications) with Z-effective and ion density after every step, replayed on a real Plasma.",
     note="Constant mock coefficients; one point; velocities from a table of integer-length relative velocities.",
     technique="TLA+ exact rational mean / charged sum enumerated by TLC, one emission call per configuration + argument trace check",
     design="4.5"),
@@ -184,7 +184,7 @@ CLAIMED = {
     text="AdfFormat.tla describes ADF11, ADF12, ADF15, ADF21 and ADF22 files as abstract documents (grid sizes incl. non-multiples of the values per line, block ranges up to 18 charge states, "
          "six ADF11 classes with their charge-state convention, three ADF15 header conventions with EXCIT/RECOM/CHEXC blocks, index order differing from block order, an index entry without block, "
          "element mismatch, ADF12 used counts below the fixed capacities) whose every numeric entry is a distinct function of (block, row, column), and states the documented conventions; TLC enumerates "
-         "~2 300 documents, each rendered by an independent writer, parsed, installed into a temporary repository and read back, compared entry by entry (1e-12) incl. rejections and stray files under $HOME. Variants: ADF15 index with / without the rule line, ADF11 with / without a trailing comment section; the thorough tier instantiates the larger tables (Deep).",
+         "~2 300 documents, each rendered by an independent writer, parsed, installed into a temporary repository and read back, compared entry by entry (1e-12) incl. rejections and stray files under $HOME. Full-configuration ADF15 levels cycle through all fourteen term letters (S..R without J). Variants: ADF15 index with / without the rule line, ADF11 with / without a trailing comment section; the thorough tier instantiates the larger tables (Deep).",
     note="No real ADAS files offline: ADF11 layout and all value/wrapping layouts follow the published fixed-width formats, but header column positions of ADF12/21/22 and the wording of ADF15 index lines follow what the parser documents; resolved ADF11 not generated.",
     technique="TLA+ abstract document table enumerated by TLC, independent writer -> parser/installer round trip per document",
     design="4.8"),
